@@ -397,6 +397,10 @@ class Ownership:
                 break  # the use is inside this statement
             if isinstance(st, ast.Assign) and any(isinstance(t, ast.Name) and t.id == name for t in st.targets):
                 last = st
+            elif self.copy_if_copyable(st, name):
+                # `if hasattr(v, "copy"): v = v.copy()` -- values without .copy are immutable scalars:
+                # equivalent to an unconditional defensive copy
+                last = st.body[0]
             elif isinstance(st, (ast.AnnAssign,)) and isinstance(st.target, ast.Name) and st.target.id == name and st.value:
                 last = st
         vals = []
@@ -407,6 +411,18 @@ class Ownership:
         if last is None:
             vals.append(None)
         return vals
+
+    @staticmethod
+    def copy_if_copyable(st, name):
+        if not (isinstance(st, ast.If) and not st.orelse and len(st.body) == 1 and isinstance(st.body[0], ast.Assign)):
+            return False
+        t = st.test
+        if not (isinstance(t, ast.Call) and dotted(t.func) == "hasattr" and len(t.args) == 2 and dotted(t.args[0]) == name
+                and isinstance(t.args[1], ast.Constant) and t.args[1].value == "copy"):
+            return False
+        a = st.body[0]
+        return (len(a.targets) == 1 and dotted(a.targets[0]) == name and isinstance(a.value, ast.Call)
+                and dotted(a.value.func) == f"{name}.copy" and not a.value.args)
 
     def in_loop(self, def_line, use_line):
         """a definition textually after the use can still reach it around a loop"""
@@ -538,9 +554,7 @@ class Ownership:
             elif isinstance(n, ast.Call):
                 d = dotted(n.func) or ""
                 for k in n.keywords:
-                    if k.arg == "out" and not (isinstance(k.value, ast.Constant) and k.value.value is None) \
-                            and (d.startswith("np.") or d.startswith("numpy.") or "ufunc" in d or "binop" in d
-                                 or d in self.fresh_callables):
+                    if k.arg == "out" and not (isinstance(k.value, ast.Constant) and k.value.value is None):
                         out.append((n.lineno, "out= argument", k.value, ast.unparse(n)[:60]))
                 if d in INPLACE_FUNCS and n.args:
                     out.append((n.lineno, f"{d} (in place)", n.args[INPLACE_FUNCS[d]], ast.unparse(n)[:60]))
@@ -596,6 +610,8 @@ KERNEL_FILES = {
 # declared frames: parameters a kernel is allowed to write, with the reason
 DECLARED_FRAMES = {
     ("dask_array/io/_store.py", "load_store_chunk"): {"out": "the store target: writing it is the function's purpose (C25)"},
+    ("dask_array/io/_store.py", "load_chunk"): {
+        "out": "forwarded to load_store_chunk with x=None, which then only reads out[index] (load of a stored chunk)"},
     ("dask_array/_chunk.py", "coarsen"): {
         "axes": "a plain dict argument (neither a task value nor an array): idempotent insertion of identity factors for the "
                 "missing axes; observation O1 in DESIGN.md (the caller's dict does gain keys)"},
